@@ -89,12 +89,15 @@ PROPS = {
                 "compiled by the real compiler and the leaf's Type.Validate is probed with boundary +/- 1 values and malformed lexemes; compared: compile verdict, Type.Default(), verdict per probe",
     },
     "C16": {
-        "streams": {"ytypes": {"quick": 4000, "thorough": 200000}},
+        "streams": {"ytypes": {"quick": 4000, "thorough": 200000}, "yvals": {"quick": 3000, "thorough": 150000, "spec_proj": "verdicts"}},
         "trusted": ["Go float64 comparison / strconv.ParseFloat = SF64 (checked bit-for-bit by C01's stream 'sf')"],
-        "modelled": ["patterns (RE2 language), union, identityref, leafref, bits, instance-identifier, and the error path/app-tag of a rejection are not modelled yet",
+        "modelled": ["patterns: the regular fragment the generator writes (literals, '.', character classes, concatenation, alternation, * + ?), on which RE2 and XSD agree; RE2 itself is trusted on it",
+                     "leafref, bits, instance-identifier, binary are not modelled; identity status (obsolete identities in the help text) is not modelled",
                      "decimal64 ranges are binary64 in the code and in the model; the specification is exact: open known finding"],
         "rule": "the probes of stream ytypes: for every generated type, every bound of every range part +/- one unit, the width bounds +/- 1, 18-19 digit values, signs, leading zeros, "
-                "blanks, hex/exponent forms, multi-byte strings at the length bounds; compared: Type.Validate verdict per probe with the model and with the exact value-space specification",
+                "blanks, hex/exponent forms, multi-byte strings at the length bounds; compared: Type.Validate verdict per probe with the model and with the exact value-space specification; "
+                "yvals: typedef chains with error-message / error-app-tag on range, length and pattern statements, 1-2 random patterns per level (alternation at top level, nested quantifiers, negated classes), "
+                "unions nested to depth 2, identityrefs over a random identity forest spread over three modules (values with and without module name); ~60 probes per case; compared: verdict, app-tag, custom message and error path per probe",
     },
     "C17": {
         "streams": {"ypath": {"quick": 3000, "thorough": 150000, "spec_proj": "path"}},
